@@ -10,6 +10,7 @@ mod c06;
 mod c08;
 mod c09;
 mod c10;
+mod c11;
 mod canon;
 mod common;
 mod enumr;
@@ -34,7 +35,7 @@ pub struct Check {
 }
 
 fn registry() -> Vec<Check> {
-	vec![c01::CHECK, c02::CHECK, c03::CHECK, c04::CHECK, c06::CHECK, c08::CHECK, c09::CHECK, c10::CHECK]
+	vec![c01::CHECK, c02::CHECK, c03::CHECK, c04::CHECK, c06::CHECK, c08::CHECK, c09::CHECK, c10::CHECK, c11::CHECK]
 }
 
 fn usage() -> ! {
